@@ -47,6 +47,17 @@ func plain(ps int, useOnet bool) scenario {
 	return b.sc
 }
 
+// a stream that has been open for ms milliseconds (p values read) when the service
+// ends it: the close frame and its code must not depend on the age of the connection
+func plainSlow(p, ms int, useOnet bool) scenario {
+	b := newB("plain-slow", 1, 1).open(0, 0).lock(0, 0, 1, p).
+		add(op{S: 0, K: "sleep", V: ms}).end(0, 0).recv(0)
+	if useOnet {
+		b.onet(0)
+	}
+	return b.sc
+}
+
 // burst: n values emitted before the client reads any
 func burst(n int) scenario {
 	b := newB("burst", 1, 1).open(0, 0)
@@ -323,6 +334,7 @@ func corpus() []interface{} {
 		followNewFirstEnd(1, 1),            // F29: first forwarder to finish closes outChan under the second
 		followSharedBurst(2, 5),            // C15-N2: forwarders on one service channel overtake each other
 		plain(3, true),
+		plainSlow(2, 750, false),           // the stream outlives the 500 ms write deadline of the close frame
 		clientLeaves("close", 5, 2, true),
 		clientLeaves("drop", 5, 2, false),
 		clientLeavesIdle("drop", 1),
@@ -370,6 +382,15 @@ func genAll(rng *rand.Rand, tier string) []interface{} {
 		}
 	}
 	add(badFirst())
+	if !quick {
+		for _, ms := range []int{600, 900, 1500, 2500} {
+			add(plainSlow(rng.Intn(4), ms, ms%2 == 0))
+			// the client leaves an old stream: the service must still be told
+			b := newB("client-close-slow", 1, 1).open(0, 0).lock(0, 0, 1, 1).
+				add(op{S: 0, K: "sleep", V: ms}).add(op{S: 0, K: "close"})
+			add(b.sc)
+		}
+	}
 	for i, p := range []int{0, 1, 2, 7} {
 		if quick && i >= 2 {
 			add(clientLeavesIdle([]string{"close", "drop"}[i%2], p))
